@@ -95,9 +95,12 @@ func rulesC18(c *Ctx) {
 				sat := map[string]bool{}
 				ast.Inspect(fn.Decl.Body, func(n ast.Node) bool {
 					if rs, ok := n.(*ast.ReturnStmt); ok && len(rs.Results) == 1 {
-						src := p.Src(rs.Results[0])
-						if strings.HasSuffix(src, "MinInt64") || strings.HasSuffix(src, "MaxInt64") {
-							sat[src] = true
+						// directly, or through a helper that logs and returns the bound
+						for _, t := range p.chain(T(rs.Results[0], nil)) {
+							src := p.Src(t.E)
+							if strings.HasSuffix(src, "MinInt64") || strings.HasSuffix(src, "MaxInt64") {
+								sat[src] = true
+							}
 						}
 					}
 					return true
